@@ -38,6 +38,10 @@ def all_cases(tier):
                 out.append({"kind": "loader", "n": n, "batch": b, "transform": tr})
             for yl in ("column", "onehot3", "list"):          # label containers other than a 1-D array
                 out.append({"kind": "loader", "n": n, "batch": b, "transform": "default", "ylayout": yl})
+    for n in (0, 1, 4, 7, 10):
+        for ts, vs in ((0.25, None), (0.5, 0.5), (0.3, 0.2)):
+            out.append({"kind": "split", "n": n, "test": ts, "val": vs, "shuffle": None, "ylayout": "rows"})
+            if n >= 2: out.append({"kind": "split", "n": n, "test": ts, "val": vs, "shuffle": "seed2", "ylayout": "rows"})
     # sizes around the limits of narrow integer types (counts / indices kept in 8 or 16 bits)
     for n in (127, 128, 129, 255, 256, 257, 300):
         out.append({"kind": "split", "n": n, "test": 0.5, "val": 0.5, "shuffle": None})
@@ -66,6 +70,8 @@ def judge(case):
         n, ts, vs, sh = case["n"], case["test"], case["val"], case["shuffle"]
         X = np.array([[i, 10 * i] for i in range(n)], dtype=np.float32).reshape(n, 2)
         y = np.array([100 + i for i in range(n)], dtype=np.float32)
+        if case.get("ylayout") == "rows":        # one label ROW per sample (one-hot / multi-target): rows stay paired with their sample
+            y = np.stack([y, y + 0.25, y + 0.5], axis=1)
         try:
             if sh is None:
                 tr, te, va = D.split_dataset(X, y, test_split=ts, val_split=vs, shuffle=False)
@@ -91,7 +97,13 @@ def judge(case):
             Xs = np.asarray(Xs); ys = np.asarray(ys)
             if len(Xs) != len(ys): v("pairing", f"{name}: {len(Xs)} features vs {len(ys)} labels"); continue
             for k in range(len(Xs)):
-                i = int(round(float(ys[k]) - 100))
+                if case.get("ylayout") == "rows":
+                    if np.shape(ys[k]) != (3,) or abs(float(ys[k][1]) - float(ys[k][0]) - 0.25) > 1e-6:
+                        v("pairing", f"{name}[{k}]: label row {ys[k]} is not a row of the label matrix"); break
+                    ys_k = ys[k][0]
+                else:
+                    ys_k = ys[k]
+                i = int(round(float(ys_k) - 100))
                 if Xs.shape[1:] != (2,) or int(Xs[k][0]) != i or int(Xs[k][1]) != 10 * i:
                     v("pairing", f"{name}[{k}]: features {Xs[k]} paired with label {ys[k]}"); break
                 seen.append(i)
@@ -101,7 +113,7 @@ def judge(case):
             order = list(range(n)) if sh is None else list(sh)
             exp_te = order[:n_test]; rest_idx = order[n_test:]
             exp_va = rest_idx[: (n_val or 0)]; exp_tr = rest_idx[(n_val or 0):]
-            got = {name: [int(round(float(t) - 100)) for t in np.asarray(p[1])] for name, p in parts}
+            got = {name: [int(round(float(np.ravel(t)[0]) - 100)) for t in np.asarray(p[1])] for name, p in parts}
             if sh is None:
                 for name in got:
                     if got[name] != sorted(got[name]): v("order", f"shuffle off but {name} order is {got[name]}")
